@@ -373,11 +373,31 @@ pub struct ModelRun {
     pub oracle: BTreeMap<String, String>,
 }
 
+/// per-character Unicode facts for the driver's full mode: `I|cp|flags|base|alpha|accent|lower`
+fn char_token(c: char) -> String {
+    format!(
+        "I|{}|{}|{}|{}|{}|{}",
+        c as u32,
+        vh::char_info(c).0,
+        vh::remove_accent(c) as u32,
+        c.is_alphabetic() as u8,
+        vh::is_accentuated(c) as u8,
+        c.to_lowercase().map(|x| (x as u32).to_string()).collect::<Vec<_>>().join(".")
+    )
+}
+
 /// run the model on the same request, answering its oracle needs with the real functions
 pub fn model_detect(d: &mut Driver, bytes: &[u8], s: &Sett) -> ModelRun {
+    model_detect_mode(d, bytes, s, false)
+}
+
+/// `full`: the mess and coherence detectors run inside the model (`worldFull`); their needs are answered
+/// with facts about the characters of the text, not with the crate's result
+pub fn model_detect_mode(d: &mut Driver, bytes: &[u8], s: &Sett, full: bool) -> ModelRun {
     let mut oracle: BTreeMap<String, String> = BTreeMap::new();
     let head = format!(
-        "detect {} {} {} {} {} {} {} {} {} {}",
+        "{} {} {} {} {} {} {} {} {} {} {}",
+        if full { "detectfull" } else { "detect" },
         hex(bytes),
         s.steps,
         s.chunk,
@@ -394,6 +414,9 @@ pub fn model_detect(d: &mut Driver, bytes: &[u8], s: &Sett) -> ModelRun {
         rounds += 1;
         let mut line = head.clone();
         for v in oracle.values() {
+            if v.is_empty() {
+                continue;
+            }
             line.push(' ');
             line.push_str(v);
         }
@@ -406,6 +429,23 @@ pub fn model_detect(d: &mut Driver, bytes: &[u8], s: &Sett) -> ModelRun {
             let mut progressed = false;
             for q in rest.split(' ') {
                 if q.is_empty() || oracle.contains_key(q) {
+                    continue;
+                }
+                if full && (q.starts_with("M|") || q.starts_with("C|")) {
+                    // describe the characters of the text (and of their lowercase images)
+                    let text = text_unhex(q.split('|').nth(1).unwrap_or(""));
+                    let mut cs: Vec<char> = text.chars().collect();
+                    cs.push('\n');
+                    let lowered: Vec<char> = cs.iter().flat_map(|c| c.to_lowercase()).collect();
+                    cs.extend(lowered);
+                    for c in cs {
+                        let key = format!("I|{}", c as u32);
+                        if !oracle.contains_key(&key) {
+                            oracle.insert(key, char_token(c));
+                            progressed = true;
+                        }
+                    }
+                    oracle.insert(q.to_string(), String::new());
                     continue;
                 }
                 match answer(bytes, q) {
